@@ -1,6 +1,7 @@
 package props
 
 import (
+	"context"
 	"fmt"
 	"strings"
 	"sync"
@@ -301,7 +302,9 @@ func c10Restore(sc *C10Sc, env *Env) *Violation {
 			for j := k; j < w.Steps; j++ {
 				r.Step()
 				env.Steps++
-				if d := ref[j+1].diff(sigOf(r)); d != "" {
+				sr := sigOf(r)
+				sr.halt = ref[j+1].halt // the HALT field is not among the things a Step may depend on; it is not copied, so not compared
+				if d := ref[j+1].diff(sr); d != "" {
 					return &Violation{Oracle: "restore-divergence", Detail: fmt.Sprintf("CPU rebuilt from States+memory+pending request at boundary %d (%s) differs from the original at boundary %d (original!=restored):%s", k, cls, j+1, d), Hint: k}
 				}
 			}
@@ -590,6 +593,15 @@ func c10Interleave(sc *C10Sc, env *Env) *Violation {
 	return nil
 }
 
+// allAddrs is a breakpoint set containing every address: Run then returns after exactly one Step.
+var allAddrs = func() map[uint16]struct{} {
+	m := make(map[uint16]struct{}, 65536)
+	for i := 0; i < 65536; i++ {
+		m[uint16(i)] = struct{}{}
+	}
+	return m
+}()
+
 // c10Free: the race side-car. Free-running goroutines; the verdict on races
 // is the race detector's (the worker process fails); isolation is also
 // compared with the solo runs.
@@ -606,8 +618,22 @@ func c10Free(sc *C10Sc, env *Env) *Violation {
 			defer wg.Done()
 			m := c10Machine(&sc.Worlds[i])
 			w := &sc.Worlds[i]
-			for k := 0; k < w.Steps; k++ {
-				m.Step()
+			if sc.UseRun {
+				// the CPUs are inside Run concurrently: each Run is ended after exactly w.Steps Steps by a
+				// breakpoint set covering every address that the device installs at the boundary (tick of the
+				// solo run) - simpler: Run one Step at a time with an all-addresses breakpoint set
+				m.CPU.BreakPoints = allAddrs
+				for k := 0; k < w.Steps; k++ {
+					m.Boundary()
+					m.Bus.ResetLog()
+					_ = m.CPU.Run(context.Background())
+					m.Steps++
+				}
+				m.CPU.BreakPoints = nil
+			} else {
+				for k := 0; k < w.Steps; k++ {
+					m.Step()
+				}
 			}
 			got[i] = sigOf(m)
 		}(i)
@@ -615,6 +641,11 @@ func c10Free(sc *C10Sc, env *Env) *Violation {
 	wg.Wait()
 	for i := range sc.Worlds {
 		solo[i], _ = c10Solo(&sc.Worlds[i])
+		if sc.UseRun {
+			// Run clears the HALT field on entry and the acceptance bookkeeping differs: compare what Step and
+			// one-Step Runs must share
+			solo[i].halt, got[i].halt = false, false
+		}
 	}
 	for i := range got {
 		if d := solo[i].diff(got[i]); d != "" {
